@@ -6,6 +6,7 @@ mod sepmodel;
 mod gen;
 mod prob;
 mod state;
+mod twins;
 
 use common::Out;
 use std::io::Write;
@@ -49,6 +50,9 @@ fn main() {
         "mbuilder" => sepmodel::stream_mbuilder(&mut out, seed, thorough),
         "model" => sepmodel::stream_model(&mut out, seed, thorough),
         "state" => state::stream(&mut out, seed, thorough),
+        "wtwin" => twins::stream_wtwin(&mut out, seed, thorough),
+        "mrhs" => twins::stream_mrhs(&mut out, seed, thorough),
+        "par" => twins::stream_par(&mut out, seed, thorough),
         _ => {
             eprintln!("unknown stream {}", stream);
             std::process::exit(2);
